@@ -7,6 +7,8 @@ CONSTANTS
   KdfUsesTime = FALSE
   Coordinated = FALSE
   TearDown = FALSE
+  ReHandshakes = 0
+  IgnoreReHandshakeWhileOpen = FALSE
 INVARIANTS C39_SameKeyWhileOpen
 VIEW View
 CONSTRAINT Bound
